@@ -406,10 +406,10 @@ class Decimal(DataType, dtypes.Decimal):
     ) -> Union[bool, Iterable[bool]]:
         try:
             pandera_dtype = Engine.dtype(pandera_dtype)
-            assert isinstance(
-                pandera_dtype, Decimal
-            ), "The return is expected to be of Decimal class"
         except TypeError:  # pragma: no cover
+            return False
+        if not isinstance(pandera_dtype, Decimal):
+            # a data type of another kind is not a decimal
             return False
 
         try:
